@@ -198,9 +198,17 @@ def guards(chain):
             elif nxt is a.get('else'):
                 out.append(('if', a['cond'], False))
         elif k == 'match':
-            for arm in a['arms']:
+            for ai, arm in enumerate(a['arms']):
                 if nxt is arm['body'] or nxt is arm.get('guard'):
                     out.append(('match', a['scrut'], arm))
+                    if nxt is arm['body']:
+                        # `P if g => body`: g holds; an earlier arm `P if g0 => ..` over the same variants was not taken: g0 does not hold
+                        mine = pat_variants(arm['pat'])
+                        for prev in a['arms'][:ai]:
+                            if 'guard' in prev and pat_variants(prev['pat']) & mine:
+                                out.append(('if', prev['guard'], False))
+                        if 'guard' in arm:
+                            out.append(('if', arm['guard'], True))
         elif k in ('loop', 'for'):
             out.append(('loop', a))
         elif k == 'closure':
